@@ -143,4 +143,184 @@ theorem encode_never_ub {Sym : Type} {c : Cfg} (hP : PrecOk c.W c.S c.P) (m : Mo
           simp [hput] at h
         · simp [hq] at h
 
+/-! ## the `NonZero` head bound survives every successful step – for arbitrary models -/
+
+/-- what the unsafe sites need: the compressed head is a valid `Word::NonZero` and the
+    compressed stack holds `Word`s.  No condition on the remainders side. -/
+def WInv (c : Cfg) (x : Coder) : Prop :=
+  1 ≤ x.heads.compressed ∧ x.heads.compressed < 2^c.W ∧ Words c.W x.compressed
+
+theorem Inv.winv {c : Cfg} {x : Coder} (h : Inv c x) : WInv c x := ⟨h.1.1, h.1.2.1, h.2.1⟩
+
+theorem Words.drop {W : Nat} {l : List Nat} (h : Words W l) (n : Nat) : Words W (l.drop n) :=
+  fun w hw => h w (List.mem_of_mem_drop hw)
+
+theorem or_lt_two_pow {a b n : Nat} (ha : a < 2^n) (hb : b < 2^n) : a ||| b < 2^n :=
+  Nat.or_lt_two_pow ha hb
+
+/-- a successful `decode` exposes the result of `takeChunk` -/
+theorem decode_ok_fields {Sym : Type} {c : Cfg} {m : Model Sym} {x y : Coder} {s : Sym}
+    (h : decode c m x = .ok (s, y)) :
+    ∃ word, takeChunk c x.heads.compressed x.compressed = .ok (word, y.heads.compressed, y.compressed) := by
+  unfold decode at h
+  cases htk : takeChunk c x.heads.compressed x.compressed with
+  | error e => simp [htk] at h
+  | ok r =>
+    obtain ⟨word, hc', comp'⟩ := r
+    refine ⟨word, ?_⟩
+    rcases hd : m.dec (quantileOf c word) with ⟨s', cum, p⟩
+    simp only [htk, hd] at h
+    by_cases hp : p = 0
+    · simp [hp] at h
+    · simp only [hp, if_false] at h
+      cases hcs : csub "chain.dec.remainder" (quantileOf c word) cum with
+      | error f => simp [hcs] at h
+      | ok r =>
+        simp only [hcs] at h
+        cases hab : absorb c x.heads.remainders x.remainders p r with
+        | error f => simp [hab] at h
+        | ok r2 =>
+          obtain ⟨hr, rems⟩ := r2
+          simp only [hab, Except.ok.injEq, Prod.mk.injEq] at h
+          rw [← h.2]
+
+/-- `decode` preserves `WInv` – any model -/
+theorem decode_winv {Sym : Type} {c : Cfg} (hP : PrecOk c.W c.S c.P) {m : Model Sym} {x y : Coder}
+    {s : Sym} (hx : WInv c x) (h : decode c m x = .ok (s, y)) : WInv c y := by
+  obtain ⟨h1, h2, hw⟩ := hx
+  obtain ⟨word, htk⟩ := decode_ok_fields h
+  obtain ⟨hP1, hPW, hS⟩ := hP
+  -- `takeChunk_ok` only uses `1 ≤ P ≤ W` of the configuration; instantiate it with `B := W`
+  have hv : CValid { c with B := c.W } := ⟨hP1, hPW, Nat.le_refl _, hS⟩
+  have htk' : takeChunk { c with B := c.W } x.heads.compressed x.compressed
+      = .ok (word, y.heads.compressed, y.compressed) := by
+    rw [← htk]; simp [takeChunk]
+  rcases takeChunk_ok hv h1 h2 hw with ⟨he, _⟩ | ⟨w', a, b, hok, ha1, ha2, _, hb, _⟩
+  · rw [he] at htk'; cases htk'
+  · rw [hok] at htk'
+    simp only [Except.ok.injEq, Prod.mk.injEq] at htk'
+    obtain ⟨_, rfl, rfl⟩ := htk'
+    exact ⟨ha1, ha2, hb⟩
+
+/-- `putChunk` keeps the head a valid `NonZero` word and the stack made of words, for any
+    quantile that fits a word -/
+theorem putChunk_bounds {c : Cfg} (hP : PrecOk c.W c.S c.P) {hc q hc' : Nat} {comp comp' : List Nat}
+    (h1 : 1 ≤ hc) (h2 : hc < 2^c.W) (hq : q < 2^c.W) (hw : Words c.W comp)
+    (h : putChunk c hc comp q = .ok (hc', comp')) :
+    1 ≤ hc' ∧ hc' < 2^c.W ∧ Words c.W comp' := by
+  obtain ⟨hP1, hPW, _⟩ := hP
+  have hsl : shlT c.W hc c.P < 2^c.W := by rw [shlT_eq]; exact Nat.mod_lt _ (pow_pos2 _)
+  unfold putChunk at h
+  split at h
+  · dsimp only at h
+    split at h
+    · cases h
+    · rename_i hne
+      simp only [Except.ok.injEq, Prod.mk.injEq] at h
+      obtain ⟨rfl, rfl⟩ := h
+      exact ⟨Nat.pos_of_ne_zero hne, or_lt_two_pow hsl hq, hw⟩
+  · split at h
+    · simp only [Except.ok.injEq, Prod.mk.injEq] at h
+      obtain ⟨rfl, rfl⟩ := h
+      exact ⟨h1, h2, Words.cons hq hw⟩
+    · dsimp only at h
+      split at h
+      · cases h
+      · rename_i hne
+        simp only [Except.ok.injEq, Prod.mk.injEq] at h
+        obtain ⟨rfl, rfl⟩ := h
+        refine ⟨Nat.pos_of_ne_zero hne, ?_, Words.cons (or_lt_two_pow hsl hq) hw⟩
+        rw [shr_eq]; exact Nat.lt_of_le_of_lt (Nat.div_le_self _ _) h2
+
+/-- `encode` preserves `WInv` – any model, any symbol (only `Probability: Into<Word>`, i.e.
+    `B ≤ W`, is used) -/
+theorem encode_winv {Sym : Type} {c : Cfg} (hP : PrecOk c.W c.S c.P) (hBW : c.B ≤ c.W)
+    {m : Model Sym} {s : Sym} {x y : Coder} (hx : WInv c x) (h : encode c m s x = .ok y) :
+    WInv c y := by
+  obtain ⟨h1, h2, hw⟩ := hx
+  unfold encode at h
+  cases hs : m.enc s with
+  | none => simp [hs] at h
+  | some cp =>
+    obtain ⟨cum, p⟩ := cp
+    simp only [hs, encodeCP] at h
+    by_cases hp : p = 0
+    · simp [hp] at h
+    · simp only [hp, if_false] at h
+      cases hrel : release c x.heads.remainders x.remainders p with
+      | error e => simp [hrel] at h
+      | ok r =>
+        obtain ⟨rmd, hr, rems⟩ := r
+        simp only [hrel] at h
+        unfold cadd at h
+        by_cases hq : cum + narrow c.B (narrow c.W rmd) < 2^c.B
+        · simp only [hq, if_true] at h
+          cases hput : putChunk c x.heads.compressed x.compressed (cum + narrow c.B (narrow c.W rmd)) with
+          | error f => simp [hput] at h
+          | ok r2 =>
+            obtain ⟨hc', comp'⟩ := r2
+            simp only [hput, Except.ok.injEq] at h
+            subst h
+            exact putChunk_bounds hP h1 h2 (Nat.lt_of_lt_of_le hq (pow_mono2 hBW)) hw hput
+        · simp [hq] at h
+
+/-- `change_precision` does not touch the compressed side -/
+theorem changePrecision_winv {c : Cfg} {q : Nat} {x y : Coder} (hx : WInv c x)
+    (h : changePrecision c q x = .ok y) : WInv (withP c q) y := by
+  have hsame : y.heads.compressed = x.heads.compressed ∧ y.compressed = x.compressed := by
+    unfold changePrecision at h
+    split at h
+    · simp only [Except.ok.injEq] at h
+      subst h
+      unfold increasePrecision
+      split <;> simp
+    · unfold decreasePrecision at h
+      split at h
+      · split at h
+        · cases h
+        · simp only [Except.ok.injEq] at h; subst h; simp
+      · simp only [Except.ok.injEq] at h; subst h; simp
+  obtain ⟨e1, e2⟩ := hsame
+  obtain ⟨h1, h2, hw⟩ := hx
+  exact ⟨by rw [e1]; exact h1, by rw [e1]; exact h2, by rw [e2]; exact hw⟩
+
+/-- what `Seek::seek` can do to a coder: heads replaced by the given ones or kept, both
+    stacks truncated or kept – also when it fails half-way -/
+theorem seek_spec (x : Coder) (p : Nat × Nat × Heads) :
+    ((seek x p).1.heads = p.2.2 ∨ (seek x p).1.heads = x.heads) ∧
+    (∃ n, (seek x p).1.compressed = x.compressed.drop n) ∧
+    (∃ n, (seek x p).1.remainders = x.remainders.drop n) := by
+  by_cases h1 : p.1 ≤ x.compressed.length
+  · by_cases h2 : p.2.1 ≤ x.remainders.length
+    · have e : seek x p = (Coder.mk (x.compressed.drop (x.compressed.length - p.1))
+          (x.remainders.drop (x.remainders.length - p.2.1)) p.2.2, true) := by
+        simp [seek, seekStack, h1, h2]
+      rw [e]; exact ⟨Or.inl rfl, ⟨_, rfl⟩, ⟨_, rfl⟩⟩
+    · have e : seek x p = (Coder.mk (x.compressed.drop (x.compressed.length - p.1))
+          x.remainders x.heads, false) := by
+        simp [seek, seekStack, h1, h2]
+      rw [e]; exact ⟨Or.inr rfl, ⟨_, rfl⟩, ⟨0, rfl⟩⟩
+  · have e : seek x p = (x, false) := by simp [seek, seekStack, h1]
+    rw [e]; exact ⟨Or.inr rfl, ⟨0, rfl⟩, ⟨0, rfl⟩⟩
+
+/-- `seek` to the position of a coder satisfying `WInv` / `Inv` -/
+theorem seek_winv {c : Cfg} {x x' : Coder} (hx : WInv c x) (hx' : WInv c x') :
+    WInv c (seek x (pos x')).1 := by
+  obtain ⟨hh, ⟨n, hc⟩, _⟩ := seek_spec x (pos x')
+  refine ⟨?_, ?_, by rw [hc]; exact hx.2.2.drop n⟩
+  · rcases hh with h | h <;> rw [h]
+    · exact hx'.1
+    · exact hx.1
+  · rcases hh with h | h <;> rw [h]
+    · exact hx'.2.1
+    · exact hx.2.1
+
+theorem seek_inv {c : Cfg} {x x' : Coder} (hx : Inv c x) (hx' : Inv c x') :
+    Inv c (seek x (pos x')).1 := by
+  obtain ⟨hh, ⟨n, hc⟩, ⟨n', hr⟩⟩ := seek_spec x (pos x')
+  refine ⟨?_, by rw [hc]; exact hx.2.1.drop n, by rw [hr]; exact hx.2.2.drop n'⟩
+  rcases hh with h | h <;> rw [h]
+  · exact hx'.1
+  · exact hx.1
+
 end CV.Chain
